@@ -317,7 +317,7 @@ def ctrMain (C : Cipher) (st : CtrSt) (buf : Bytes) : CtrSt × Bytes :=
       l.2.1 ++ xorb l.2.2 ((C.enc st.key (incBlock l.1.1)).take l.2.2.length))
   else ({ st with ctr := l.1.1, block := l.1.2, reserved := 0 }, l.2.1)
 
-theorem ctrStepE_main (C : Cipher) (st : CtrSt) (buf : Bytes) (hb : st.block.length = 16)
+theorem ctrStepE_main (C : Cipher) (st : CtrSt) (buf : Bytes)
     (h : ¬ (st.reserved ≠ 0 ∧ st.reserved ≥ buf.length)) :
     ctrStepE C st buf = ((ctrMain C st (buf.drop st.reserved)).1,
       xorb (buf.take st.reserved) (st.block.drop (16 - st.reserved)) ++ (ctrMain C st (buf.drop st.reserved)).2) := by
@@ -327,5 +327,458 @@ theorem ctrStepE_main (C : Cipher) (st : CtrSt) (buf : Bytes) (hb : st.block.len
   · simp only [hr, ne_eq, not_true_eq_false, if_false, List.take_zero, xorb_nil_left, List.drop_zero, List.nil_append]
   · simp only [hr, ne_eq, not_false_eq_true, if_true]
     split <;> simp only [List.append_assoc]
+
+theorem ctrBody_step (C : Cipher) (key : Bytes) (hlen : ∀ k x, x.length = 16 → (C.enc k x).length = 16) :
+    ∀ (s t : Bytes × Bytes) (b : Bytes), (s = t ∧ s.1.length = 16) → b.length = 16 →
+      (ctrBody C key s b).2.length = 16 ∧ (ctrBody C key t (ctrBody C key s b).2).2 = b ∧
+      ((ctrBody C key s b).1 = (ctrBody C key t (ctrBody C key s b).2).1 ∧ (ctrBody C key s b).1.1.length = 16) := by
+  rintro s t b ⟨rfl, hs⟩ hb
+  have hi := length_incBlock s.1 hs
+  have hg := hlen key _ hi
+  simp only [ctrBody]
+  exact ⟨by rw [length_xorb]; omega, xorb_cancel_right _ _ (by omega), trivial, hi⟩
+
+theorem ctrMain_out (C : Cipher) (st : CtrSt) (buf : Bytes) :
+    (ctrMain C st buf).2 = (fullBlocks 16 (ctrBody C st.key) (st.ctr, st.block) buf).2.1 ++
+      xorb (fullBlocks 16 (ctrBody C st.key) (st.ctr, st.block) buf).2.2
+        ((C.enc st.key (incBlock (fullBlocks 16 (ctrBody C st.key) (st.ctr, st.block) buf).1.1)).take
+          (fullBlocks 16 (ctrBody C st.key) (st.ctr, st.block) buf).2.2.length) := by
+  unfold ctrMain
+  simp only []
+  split
+  · rfl
+  · rename_i h
+    have : (fullBlocks 16 (ctrBody C st.key) (st.ctr, st.block) buf).2.2 = [] := by
+      apply List.eq_nil_of_length_eq_zero; simpa using h
+    rw [this, xorb_nil_left, List.append_nil]
+
+theorem ctrMain_roundtrip (C : Cipher) (hlen : ∀ k x, x.length = 16 → (C.enc k x).length = 16)
+    (st : CtrSt) (hc : st.ctr.length = 16) (buf : Bytes) :
+    (ctrMain C st buf).2.length = buf.length ∧
+    (ctrMain C st (ctrMain C st buf).2).2 = buf ∧
+    (ctrMain C st (ctrMain C st buf).2).1 = (ctrMain C st buf).1 := by
+  have hL := fullBlocks_lengths 16 (by omega) (ctrBody C st.key) (fun s => s.1.length = 16)
+    (fun s b hs hb => ⟨length_incBlock s.1 hs, by
+      simp only [ctrBody, length_xorb, hlen _ _ (length_incBlock s.1 hs)]; omega⟩)
+    buf.length buf (st.ctr, st.block) (Nat.le_refl _) hc
+  have hout := ctrMain_out C st buf
+  have hRT := fullBlocks_roundtrip 16 (by omega) (ctrBody C st.key) (ctrBody C st.key)
+    (fun s t => s = t ∧ s.1.length = 16) (ctrBody_step C st.key hlen) buf.length buf (st.ctr, st.block)
+    (st.ctr, st.block)
+  rcases hl : fullBlocks 16 (ctrBody C st.key) (st.ctr, st.block) buf with ⟨⟨c1, b1⟩, p, r⟩
+  rw [hl] at hL hout hRT
+  simp only [] at hL hout hRT
+  obtain ⟨hc1, hpl, hr16, _⟩ := hL
+  have hg : (C.enc st.key (incBlock c1)).length = 16 := hlen _ _ (length_incBlock c1 hc1)
+  have htl : (xorb r ((C.enc st.key (incBlock c1)).take r.length)).length = r.length := by
+    simp only [length_xorb, List.length_take, hg]; omega
+  have hRT' := hRT _ (Nat.le_refl _) ⟨trivial, hc⟩ (by rw [htl]; exact hr16)
+  have hout2 := ctrMain_out C st (ctrMain C st buf).2
+  rw [hout] at hout2 ⊢
+  rcases hl' : fullBlocks 16 (ctrBody C st.key) (st.ctr, st.block)
+    (p ++ xorb r ((C.enc st.key (incBlock c1)).take r.length)) with ⟨⟨c2, b2⟩, p', r'⟩
+  rw [hl'] at hRT' hout2
+  simp only [] at hRT' hout2
+  obtain ⟨h1, h2, h3, _⟩ := hRT'
+  injection h3 with h3a h3b
+  subst h3a h3b h2
+  refine ⟨by simp only [List.length_append, htl]; omega, ?_, ?_⟩
+  · rw [hout2, htl, xorb_cancel_right _ _ (by simp only [List.length_take, hg]; omega), h1]
+  · unfold ctrMain
+    simp only [hl, hl', htl]
+    split <;> rfl
+
+theorem ctrStepE_res (C : Cipher) (st : CtrSt) (buf : Bytes)
+    (h : st.reserved ≠ 0 ∧ st.reserved ≥ buf.length) :
+    ctrStepE C st buf = ({ st with reserved := st.reserved - buf.length },
+      xorb buf ((st.block.drop (16 - st.reserved)).take buf.length)) := by
+  unfold ctrStepE
+  rw [if_pos h]
+
+theorem ctrStepE_roundtrip (C : Cipher) (hlen : ∀ k x, x.length = 16 → (C.enc k x).length = 16)
+    (st : CtrSt) (hr : st.reserved ≤ 16) (hb : st.block.length = 16) (hc : st.ctr.length = 16) (buf : Bytes) :
+    (ctrStepE C st buf).2.length = buf.length ∧
+    (ctrStepE C st (ctrStepE C st buf).2).2 = buf ∧
+    (ctrStepE C st (ctrStepE C st buf).2).1 = (ctrStepE C st buf).1 := by
+  by_cases h : st.reserved ≠ 0 ∧ st.reserved ≥ buf.length
+  · have hG : ((st.block.drop (16 - st.reserved)).take buf.length).length = buf.length := by
+      simp only [List.length_take, List.length_drop, hb]; omega
+    have hol : (xorb buf ((st.block.drop (16 - st.reserved)).take buf.length)).length = buf.length := by
+      rw [length_xorb, hG]; omega
+    rw [ctrStepE_res C st buf h]
+    simp only []
+    rw [ctrStepE_res C st _ (by rw [hol]; exact h)]
+    simp only [hol]
+    exact ⟨trivial, xorb_cancel_right _ _ (by omega), trivial⟩
+  · have hD : (st.block.drop (16 - st.reserved)).length = st.reserved := by
+      simp only [List.length_drop, hb]; omega
+    have hrl : st.reserved ≤ buf.length := by
+      by_cases h0 : st.reserved = 0
+      · omega
+      · have : ¬ st.reserved ≥ buf.length := fun h' => h ⟨h0, h'⟩
+        omega
+    have hhead : (xorb (buf.take st.reserved) (st.block.drop (16 - st.reserved))).length = st.reserved := by
+      simp only [length_xorb, List.length_take, hD]; omega
+    obtain ⟨m1, m2, m3⟩ := ctrMain_roundtrip C hlen st hc (buf.drop st.reserved)
+    rw [ctrStepE_main C st buf h]
+    simp only []
+    have hol : (xorb (buf.take st.reserved) (st.block.drop (16 - st.reserved)) ++
+        (ctrMain C st (buf.drop st.reserved)).2).length = buf.length := by
+      simp only [List.length_append, hhead, m1, List.length_drop]; omega
+    rw [ctrStepE_main C st _ (by rw [hol]; exact h)]
+    simp only []
+    rw [take_append_len _ _ _ hhead, drop_append_len _ _ _ hhead, m2, m3,
+      xorb_cancel_right _ _ (by simp only [List.length_take, hD]; omega), List.take_append_drop]
+    exact ⟨hol, rfl, rfl⟩
+
+/-! ### CFB -/
+
+def cfbBodyE (C : Cipher) (key : Bytes) : Bytes → Bytes → Bytes × Bytes :=
+  fun blk b => (xorb (C.enc key blk) b, xorb (C.enc key blk) b)
+
+def cfbBodyD (C : Cipher) (key : Bytes) : Bytes → Bytes → Bytes × Bytes :=
+  fun blk b => (xorb (C.enc key blk) (xorb b (C.enc key blk)), xorb b (C.enc key blk))
+
+/-- `beltCFBStepE` after the reserve of the key stream has been used up; `blk0` = `st->block` at that point -/
+def cfbMainE (C : Cipher) (st : CfbSt) (blk0 buf : Bytes) : CfbSt × Bytes :=
+  let l := fullBlocks 16 (cfbBodyE C st.key) blk0 buf
+  if l.2.2.length ≠ 0 then
+    ({ st with block := xorb ((C.enc st.key l.1).take l.2.2.length) l.2.2 ++ (C.enc st.key l.1).drop l.2.2.length,
+               reserved := 16 - l.2.2.length },
+      l.2.1 ++ xorb ((C.enc st.key l.1).take l.2.2.length) l.2.2)
+  else ({ st with block := l.1, reserved := 0 }, l.2.1)
+
+def cfbMainD (C : Cipher) (st : CfbSt) (blk0 buf : Bytes) : CfbSt × Bytes :=
+  let l := fullBlocks 16 (cfbBodyD C st.key) blk0 buf
+  if l.2.2.length ≠ 0 then
+    ({ st with block := xorb ((C.enc st.key l.1).take l.2.2.length) (xorb l.2.2 ((C.enc st.key l.1).take l.2.2.length))
+                 ++ (C.enc st.key l.1).drop l.2.2.length,
+               reserved := 16 - l.2.2.length },
+      l.2.1 ++ xorb l.2.2 ((C.enc st.key l.1).take l.2.2.length))
+  else ({ st with block := l.1, reserved := 0 }, l.2.1)
+
+theorem putAt_nil (blk : Bytes) (off : Nat) : putAt blk off [] = blk := by
+  simp only [putAt, List.append_nil, List.length_nil, Nat.add_zero, List.take_append_drop]
+
+theorem length_putAt (blk x : Bytes) (off : Nat) (h : off + x.length ≤ blk.length) :
+    (putAt blk off x).length = blk.length := by
+  simp only [putAt, List.length_append, List.length_take, List.length_drop]; omega
+
+theorem cfbStepE_main (C : Cipher) (st : CfbSt) (buf : Bytes)
+    (h : ¬ (st.reserved ≠ 0 ∧ st.reserved ≥ buf.length)) :
+    cfbStepE C st buf =
+      ((cfbMainE C st (putAt st.block (16 - st.reserved)
+          (xorb (st.block.drop (16 - st.reserved)) (buf.take st.reserved))) (buf.drop st.reserved)).1,
+        xorb (st.block.drop (16 - st.reserved)) (buf.take st.reserved) ++
+        (cfbMainE C st (putAt st.block (16 - st.reserved)
+          (xorb (st.block.drop (16 - st.reserved)) (buf.take st.reserved))) (buf.drop st.reserved)).2) := by
+  unfold cfbStepE cfbMainE cfbBodyE
+  rw [if_neg h]
+  by_cases hr : st.reserved = 0
+  · simp only [hr, ne_eq, not_true_eq_false, if_false, List.take_zero, xorb_nil_right, List.drop_zero,
+      List.nil_append, putAt_nil]
+  · simp only [hr, ne_eq, not_false_eq_true, if_true]
+    split <;> simp only [List.append_assoc]
+
+theorem cfbStepD_main (C : Cipher) (st : CfbSt) (buf : Bytes)
+    (h : ¬ (st.reserved ≠ 0 ∧ st.reserved ≥ buf.length)) :
+    cfbStepD C st buf =
+      ((cfbMainD C st (putAt st.block (16 - st.reserved)
+          (xorb (st.block.drop (16 - st.reserved))
+            (xorb (buf.take st.reserved) (st.block.drop (16 - st.reserved))))) (buf.drop st.reserved)).1,
+        xorb (buf.take st.reserved) (st.block.drop (16 - st.reserved)) ++
+        (cfbMainD C st (putAt st.block (16 - st.reserved)
+          (xorb (st.block.drop (16 - st.reserved))
+            (xorb (buf.take st.reserved) (st.block.drop (16 - st.reserved))))) (buf.drop st.reserved)).2) := by
+  unfold cfbStepD cfbMainD cfbBodyD
+  rw [if_neg h]
+  by_cases hr : st.reserved = 0
+  · simp only [hr, ne_eq, not_true_eq_false, if_false, List.take_zero, xorb_nil_left, xorb_nil_right, List.drop_zero,
+      List.nil_append, putAt_nil]
+  · simp only [hr, ne_eq, not_false_eq_true, if_true]
+    split <;> simp only [List.append_assoc]
+
+theorem cfbBody_step (C : Cipher) (key : Bytes) (hlen : ∀ k x, x.length = 16 → (C.enc k x).length = 16) :
+    ∀ (s t b : Bytes), (s = t ∧ s.length = 16) → b.length = 16 →
+      (cfbBodyE C key s b).2.length = 16 ∧ (cfbBodyD C key t (cfbBodyE C key s b).2).2 = b ∧
+      ((cfbBodyE C key s b).1 = (cfbBodyD C key t (cfbBodyE C key s b).2).1 ∧
+        (cfbBodyE C key s b).1.length = 16) := by
+  rintro s t b ⟨rfl, hs⟩ hb
+  have hg := hlen key s hs
+  have e : xorb (xorb (C.enc key s) b) (C.enc key s) = b := xorb_cancel_mid _ _ (by omega)
+  have hl : (xorb (C.enc key s) b).length = 16 := by rw [length_xorb]; omega
+  simp only [cfbBodyE, cfbBodyD, e, hl]
+  exact ⟨trivial, trivial, trivial, trivial⟩
+
+theorem cfbMainE_out (C : Cipher) (st : CfbSt) (blk0 buf : Bytes) :
+    (cfbMainE C st blk0 buf).2 = (fullBlocks 16 (cfbBodyE C st.key) blk0 buf).2.1 ++
+      xorb ((C.enc st.key (fullBlocks 16 (cfbBodyE C st.key) blk0 buf).1).take
+          (fullBlocks 16 (cfbBodyE C st.key) blk0 buf).2.2.length)
+        (fullBlocks 16 (cfbBodyE C st.key) blk0 buf).2.2 := by
+  unfold cfbMainE
+  simp only []
+  split
+  · rfl
+  · rename_i h
+    have : (fullBlocks 16 (cfbBodyE C st.key) blk0 buf).2.2 = [] := by
+      apply List.eq_nil_of_length_eq_zero; simpa using h
+    rw [this, xorb_nil_right, List.append_nil]
+
+theorem cfbMainD_out (C : Cipher) (st : CfbSt) (blk0 buf : Bytes) :
+    (cfbMainD C st blk0 buf).2 = (fullBlocks 16 (cfbBodyD C st.key) blk0 buf).2.1 ++
+      xorb (fullBlocks 16 (cfbBodyD C st.key) blk0 buf).2.2
+        ((C.enc st.key (fullBlocks 16 (cfbBodyD C st.key) blk0 buf).1).take
+          (fullBlocks 16 (cfbBodyD C st.key) blk0 buf).2.2.length) := by
+  unfold cfbMainD
+  simp only []
+  split
+  · rfl
+  · rename_i h
+    have : (fullBlocks 16 (cfbBodyD C st.key) blk0 buf).2.2 = [] := by
+      apply List.eq_nil_of_length_eq_zero; simpa using h
+    rw [this, xorb_nil_left, List.append_nil]
+
+theorem cfbMain_roundtrip (C : Cipher) (hlen : ∀ k x, x.length = 16 → (C.enc k x).length = 16)
+    (st : CfbSt) (blk0 : Bytes) (h0 : blk0.length = 16) (buf : Bytes) :
+    (cfbMainE C st blk0 buf).2.length = buf.length ∧
+    (cfbMainD C st blk0 (cfbMainE C st blk0 buf).2).2 = buf ∧
+    (cfbMainD C st blk0 (cfbMainE C st blk0 buf).2).1 = (cfbMainE C st blk0 buf).1 ∧
+    (cfbMainE C st blk0 buf).1.block.length = 16 ∧ (cfbMainE C st blk0 buf).1.reserved ≤ 16 := by
+  have hL := fullBlocks_lengths 16 (by omega) (cfbBodyE C st.key) (fun s => s.length = 16)
+    (fun s b hs hb => by
+      have : (xorb (C.enc st.key s) b).length = 16 := by rw [length_xorb, hlen _ _ hs]; omega
+      exact ⟨this, this⟩)
+    buf.length buf blk0 (Nat.le_refl _) h0
+  have hout := cfbMainE_out C st blk0 buf
+  have hRT := fullBlocks_roundtrip 16 (by omega) (cfbBodyE C st.key) (cfbBodyD C st.key)
+    (fun s t => s = t ∧ s.length = 16) (cfbBody_step C st.key hlen) buf.length buf blk0 blk0
+  rcases hl : fullBlocks 16 (cfbBodyE C st.key) blk0 buf with ⟨c1, p, r⟩
+  rw [hl] at hL hout hRT
+  simp only [] at hL hout hRT
+  obtain ⟨hc1, hpl, hr16, _⟩ := hL
+  have hg : (C.enc st.key c1).length = 16 := hlen _ _ hc1
+  have htk : ((C.enc st.key c1).take r.length).length = r.length := by
+    simp only [List.length_take, hg]; omega
+  have htl : (xorb ((C.enc st.key c1).take r.length) r).length = r.length := by
+    rw [length_xorb, htk]; omega
+  have hRT' := hRT _ (Nat.le_refl _) ⟨trivial, h0⟩ (by rw [htl]; exact hr16)
+  have hout2 := cfbMainD_out C st blk0 (cfbMainE C st blk0 buf).2
+  rw [hout] at hout2 ⊢
+  rcases hl' : fullBlocks 16 (cfbBodyD C st.key) blk0
+    (p ++ xorb ((C.enc st.key c1).take r.length) r) with ⟨c2, p', r'⟩
+  rw [hl'] at hRT' hout2
+  simp only [] at hRT' hout2
+  obtain ⟨h1, h2, h3, _⟩ := hRT'
+  subst h3 h2
+  have hcan : xorb (xorb ((C.enc st.key c1).take r.length) r) ((C.enc st.key c1).take r.length) = r :=
+    xorb_cancel_mid _ _ (by omega)
+  refine ⟨by simp only [List.length_append, htl]; omega, ?_, ?_, ?_, ?_⟩
+  · rw [hout2, htl, hcan, h1]
+  · unfold cfbMainD cfbMainE
+    simp only [hl, hl', htl, hcan]
+    split <;> rfl
+  · unfold cfbMainE
+    simp only [hl]
+    split
+    · simp only [List.length_append, htl, List.length_drop, hg]; omega
+    · exact hc1
+  · unfold cfbMainE
+    simp only [hl]
+    split
+    · simp only []; omega
+    · simp only []; omega
+
+theorem cfbStepE_res (C : Cipher) (st : CfbSt) (buf : Bytes)
+    (h : st.reserved ≠ 0 ∧ st.reserved ≥ buf.length) :
+    cfbStepE C st buf =
+      ({ st with block := putAt st.block (16 - st.reserved)
+                   (xorb ((st.block.drop (16 - st.reserved)).take buf.length) buf),
+                 reserved := st.reserved - buf.length },
+        xorb ((st.block.drop (16 - st.reserved)).take buf.length) buf) := by
+  unfold cfbStepE
+  rw [if_pos h]
+
+theorem cfbStepD_res (C : Cipher) (st : CfbSt) (buf : Bytes)
+    (h : st.reserved ≠ 0 ∧ st.reserved ≥ buf.length) :
+    cfbStepD C st buf =
+      ({ st with block := putAt st.block (16 - st.reserved)
+                   (xorb ((st.block.drop (16 - st.reserved)).take buf.length)
+                     (xorb buf ((st.block.drop (16 - st.reserved)).take buf.length))),
+                 reserved := st.reserved - buf.length },
+        xorb buf ((st.block.drop (16 - st.reserved)).take buf.length)) := by
+  unfold cfbStepD
+  rw [if_pos h]
+
+/-- decryption of an encrypted fragment from the same state: data, final state, and the state invariant -/
+theorem cfbStep_roundtrip (C : Cipher) (hlen : ∀ k x, x.length = 16 → (C.enc k x).length = 16)
+    (st : CfbSt) (hr : st.reserved ≤ 16) (hb : st.block.length = 16) (buf : Bytes) :
+    (cfbStepE C st buf).2.length = buf.length ∧
+    (cfbStepD C st (cfbStepE C st buf).2).2 = buf ∧
+    (cfbStepD C st (cfbStepE C st buf).2).1 = (cfbStepE C st buf).1 ∧
+    (cfbStepE C st buf).1.block.length = 16 ∧ (cfbStepE C st buf).1.reserved ≤ 16 := by
+  by_cases h : st.reserved ≠ 0 ∧ st.reserved ≥ buf.length
+  · have hG : ((st.block.drop (16 - st.reserved)).take buf.length).length = buf.length := by
+      simp only [List.length_take, List.length_drop, hb]; omega
+    have hol : (xorb ((st.block.drop (16 - st.reserved)).take buf.length) buf).length = buf.length := by
+      rw [length_xorb, hG]; omega
+    have hcan : xorb (xorb ((st.block.drop (16 - st.reserved)).take buf.length) buf)
+        ((st.block.drop (16 - st.reserved)).take buf.length) = buf := xorb_cancel_mid _ _ (by omega)
+    rw [cfbStepE_res C st buf h]
+    simp only []
+    rw [cfbStepD_res C st _ (by rw [hol]; exact h)]
+    simp only [hol, hcan]
+    refine ⟨trivial, trivial, trivial, ?_, by omega⟩
+    rw [length_putAt _ _ _ (by rw [hol, hb]; omega)]; exact hb
+  · have hD : (st.block.drop (16 - st.reserved)).length = st.reserved := by
+      simp only [List.length_drop, hb]; omega
+    have hrl : st.reserved ≤ buf.length := by
+      by_cases h0 : st.reserved = 0
+      · omega
+      · have : ¬ st.reserved ≥ buf.length := fun h' => h ⟨h0, h'⟩
+        omega
+    have htk : (buf.take st.reserved).length = st.reserved := by
+      simp only [List.length_take]; omega
+    have hhead : (xorb (st.block.drop (16 - st.reserved)) (buf.take st.reserved)).length = st.reserved := by
+      rw [length_xorb, hD, htk]; omega
+    have hblk0 : (putAt st.block (16 - st.reserved)
+        (xorb (st.block.drop (16 - st.reserved)) (buf.take st.reserved))).length = 16 := by
+      rw [length_putAt _ _ _ (by rw [hhead, hb]; omega)]; exact hb
+    obtain ⟨m1, m2, m3, m4, m5⟩ := cfbMain_roundtrip C hlen st _ hblk0 (buf.drop st.reserved)
+    rw [cfbStepE_main C st buf h]
+    simp only []
+    have hol : (xorb (st.block.drop (16 - st.reserved)) (buf.take st.reserved) ++
+        (cfbMainE C st (putAt st.block (16 - st.reserved)
+          (xorb (st.block.drop (16 - st.reserved)) (buf.take st.reserved))) (buf.drop st.reserved)).2).length
+          = buf.length := by
+      simp only [List.length_append, hhead, m1, List.length_drop]; omega
+    rw [cfbStepD_main C st _ (by rw [hol]; exact h)]
+    simp only []
+    rw [take_append_len _ _ _ hhead, drop_append_len _ _ _ hhead,
+      xorb_cancel_mid _ _ (by rw [htk, hD]; omega), m2, m3, List.take_append_drop]
+    exact ⟨hol, rfl, rfl, m4, m5⟩
+
+/-! ### BDE -/
+
+/-- one iteration of `beltBDEStepE` (`F = C.enc`) / `beltBDEStepD` (`F = C.dec`) -/
+def bdeBody (F : Bytes → Bytes → Bytes) (key : Bytes) : Bytes → Bytes → Bytes × Bytes :=
+  fun s b => (mulC s, xorb (F key (xorb b (mulC s))) (mulC s))
+
+theorem bdeStepE_eq (C : Cipher) (st : BdeSt) (buf : Bytes) :
+    bdeStepE C st buf =
+      ({ st with s := (fullBlocks 16 (bdeBody C.enc st.key) st.s buf).1,
+                 block := if buf.length ≥ 16 then (fullBlocks 16 (bdeBody C.enc st.key) st.s buf).1 else st.block },
+        (fullBlocks 16 (bdeBody C.enc st.key) st.s buf).2.1 ++ (fullBlocks 16 (bdeBody C.enc st.key) st.s buf).2.2) := rfl
+
+theorem bdeStepD_eq (C : Cipher) (st : BdeSt) (buf : Bytes) :
+    bdeStepD C st buf =
+      ({ st with s := (fullBlocks 16 (bdeBody C.dec st.key) st.s buf).1,
+                 block := if buf.length ≥ 16 then (fullBlocks 16 (bdeBody C.dec st.key) st.s buf).1 else st.block },
+        (fullBlocks 16 (bdeBody C.dec st.key) st.s buf).2.1 ++ (fullBlocks 16 (bdeBody C.dec st.key) st.s buf).2.2) := rfl
+
+theorem bdeBody_step (F G : Bytes → Bytes → Bytes) (key : Bytes)
+    (hlen : ∀ k x, x.length = 16 → (F k x).length = 16)
+    (hGF : ∀ k x, x.length = 16 → G k (F k x) = x) :
+    ∀ (s t b : Bytes), (s = t ∧ s.length = 16) → b.length = 16 →
+      (bdeBody F key s b).2.length = 16 ∧ (bdeBody G key t (bdeBody F key s b).2).2 = b ∧
+      ((bdeBody F key s b).1 = (bdeBody G key t (bdeBody F key s b).2).1 ∧ (bdeBody F key s b).1.length = 16) := by
+  rintro s t b ⟨rfl, hs⟩ hb
+  have hm := length_mulC s hs
+  have hx : (xorb b (mulC s)).length = 16 := by rw [length_xorb]; omega
+  have hf := hlen key _ hx
+  have e1 : xorb (xorb (F key (xorb b (mulC s))) (mulC s)) (mulC s) = F key (xorb b (mulC s)) :=
+    xorb_cancel_right _ _ (by omega)
+  have e2 : xorb (xorb b (mulC s)) (mulC s) = b := xorb_cancel_right _ _ (by omega)
+  have hl : (xorb (F key (xorb b (mulC s))) (mulC s)).length = 16 := by rw [length_xorb]; omega
+  simp only [bdeBody, e1, hGF key _ hx, e2, hl, hm]
+  exact ⟨trivial, trivial, trivial, trivial⟩
+
+/-- the loop of `beltBDEStepD` undoes the loop of `beltBDEStepE` (and vice versa, by the choice of `F`, `G`) -/
+theorem bdeLoop_roundtrip (F G : Bytes → Bytes → Bytes) (key : Bytes)
+    (hlen : ∀ k x, x.length = 16 → (F k x).length = 16)
+    (hGF : ∀ k x, x.length = 16 → G k (F k x) = x) (s : Bytes) (hs : s.length = 16) (buf : Bytes) :
+    ((fullBlocks 16 (bdeBody F key) s buf).2.1 ++ (fullBlocks 16 (bdeBody F key) s buf).2.2).length = buf.length ∧
+    (fullBlocks 16 (bdeBody G key) s
+      ((fullBlocks 16 (bdeBody F key) s buf).2.1 ++ (fullBlocks 16 (bdeBody F key) s buf).2.2)).2.1 ++
+    (fullBlocks 16 (bdeBody G key) s
+      ((fullBlocks 16 (bdeBody F key) s buf).2.1 ++ (fullBlocks 16 (bdeBody F key) s buf).2.2)).2.2 = buf ∧
+    (fullBlocks 16 (bdeBody G key) s
+      ((fullBlocks 16 (bdeBody F key) s buf).2.1 ++ (fullBlocks 16 (bdeBody F key) s buf).2.2)).1 =
+    (fullBlocks 16 (bdeBody F key) s buf).1 := by
+  have hL := fullBlocks_lengths 16 (by omega) (bdeBody F key) (fun s => s.length = 16)
+    (fun s b hs hb => by
+      have hm := length_mulC s hs
+      have hx : (xorb b (mulC s)).length = 16 := by rw [length_xorb]; omega
+      have hf := hlen key _ hx
+      exact ⟨hm, by simp only [bdeBody, length_xorb]; omega⟩)
+    buf.length buf s (Nat.le_refl _) hs
+  have hRT := fullBlocks_roundtrip 16 (by omega) (bdeBody F key) (bdeBody G key)
+    (fun s t => s = t ∧ s.length = 16) (bdeBody_step F G key hlen hGF) buf.length buf s s
+  rcases hl : fullBlocks 16 (bdeBody F key) s buf with ⟨c1, p, r⟩
+  rw [hl] at hL hRT
+  simp only [] at hL hRT ⊢
+  obtain ⟨hc1, hpl, hr16, _⟩ := hL
+  obtain ⟨h1, h2, h3, _⟩ := hRT r (Nat.le_refl _) ⟨trivial, hs⟩ hr16
+  refine ⟨by simp only [List.length_append]; omega, ?_, h3.symm⟩
+  rw [h2, h1]
+
+/-! ### CTR: the key stream -/
+
+theorem ctrMain_nil (C : Cipher) (st : CtrSt) : (ctrMain C st []).2 = [] := by
+  rw [ctrMain_out, fullBlocks_lt 16 _ _ [] (by simp)]
+  simp only [xorb_nil_left, List.append_nil]
+
+theorem ctrMain_step (C : Cipher) (st : CtrSt) (buf : Bytes) (h : 0 < buf.length) :
+    (ctrMain C st buf).2 = xorb (buf.take 16) (C.enc st.key (incBlock st.ctr)) ++
+      (ctrMain C { st with ctr := incBlock st.ctr, block := C.enc st.key (incBlock st.ctr) } (buf.drop 16)).2 := by
+  by_cases hlt : buf.length < 16
+  · have hd : buf.drop 16 = [] := List.drop_eq_nil_of_le (by omega)
+    have ht : buf.take 16 = buf := List.take_of_length_le (by omega)
+    rw [hd, ctrMain_nil, ctrMain_out, fullBlocks_lt 16 _ _ buf hlt]
+    simp only [List.nil_append, List.append_nil, xorb_take_right, ht]
+  · rw [ctrMain_out, ctrMain_out, fullBlocks_ge 16 (by omega) _ _ buf (by omega)]
+    simp only [ctrBody, List.append_assoc]
+
+theorem ctrMain_block (C : Cipher) (hlen : ∀ k x, x.length = 16 → (C.enc k x).length = 16) :
+    ∀ (i : Nat) (st : CtrSt) (buf : Bytes), st.ctr.length = 16 →
+      ((ctrMain C st buf).2.drop (16 * i)).take 16 =
+        xorb ((buf.drop (16 * i)).take 16)
+          (C.enc st.key (natLE 16 ((leNat st.ctr + i + 1) % 2 ^ 128))) := by
+  intro i
+  induction i with
+  | zero =>
+    intro st buf hc
+    have hi := length_incBlock st.ctr hc
+    have hctr : natLE 16 ((leNat st.ctr + 0 + 1) % 2 ^ 128) = incBlock st.ctr := by
+      rw [Nat.add_zero, ← leNat_incBlock st.ctr hc, natLE_leNat_16 _ hi]
+    rw [hctr]
+    by_cases h0 : buf.length = 0
+    · have : buf = [] := List.eq_nil_of_length_eq_zero h0
+      subst this
+      simp only [ctrMain_nil, List.drop_nil, List.take_nil, xorb_nil_left]
+    · rw [ctrMain_step C st buf (by omega)]
+      simp only [Nat.mul_zero, List.drop_zero]
+      by_cases hlt : buf.length < 16
+      · have hd : buf.drop 16 = [] := List.drop_eq_nil_of_le (by omega)
+        rw [hd, ctrMain_nil, List.append_nil]
+        exact List.take_of_length_le (by rw [length_xorb, List.length_take]; omega)
+      · exact take_append_len _ _ _ (by rw [length_xorb, List.length_take, hlen _ _ hi]; omega)
+  | succ i ih =>
+    intro st buf hc
+    have hi := length_incBlock st.ctr hc
+    by_cases hlt : buf.length < 16
+    · have h1 : (ctrMain C st buf).2.drop (16 * (i + 1)) = [] :=
+        List.drop_eq_nil_of_le (by rw [(ctrMain_roundtrip C hlen st hc buf).1]; omega)
+      have h2 : buf.drop (16 * (i + 1)) = [] := List.drop_eq_nil_of_le (by omega)
+      rw [h1, h2]
+      simp only [List.take_nil, xorb_nil_left]
+    · rw [ctrMain_step C st buf (by omega)]
+      have hx : (xorb (buf.take 16) (C.enc st.key (incBlock st.ctr))).length = 16 := by
+        rw [length_xorb, List.length_take, hlen _ _ hi]; omega
+      have hsplit : 16 * (i + 1) = 16 + 16 * i := by omega
+      rw [hsplit, ← List.drop_drop, drop_append_len _ _ _ hx, ← List.drop_drop]
+      rw [ih { st with ctr := incBlock st.ctr, block := C.enc st.key (incBlock st.ctr) } (buf.drop 16) hi]
+      simp only [leNat_incBlock st.ctr hc]
+      have : ((leNat st.ctr + 1) % 2 ^ 128 + i + 1) % 2 ^ 128 = (leNat st.ctr + (i + 1) + 1) % 2 ^ 128 := by omega
+      rw [this]
 
 end Bee2V.C01
